@@ -18,7 +18,8 @@ def one(name):
         return name, {"status": "superseded"}
     prop = name.split("-")[-1]
     env = dict(os.environ, SEED_FILE="0")
-    r = subprocess.run([sys.executable, os.path.join(VERIF, "tools", "seedverify.py"), src, name, prop], capture_output=True, text=True, env=env)
+    extra = [p for p in meta.get("also_check", []) if p != prop]      # other properties' checks known to catch this change
+    r = subprocess.run([sys.executable, os.path.join(VERIF, "tools", "seedverify.py"), src, name, prop] + extra, capture_output=True, text=True, env=env)
     try:
         d = json.loads(r.stdout)
     except Exception:
